@@ -56,6 +56,18 @@ def t_rename(rng, rules):
     inv = {b: a for a, b in mp.items()}
     return "\n".join(lines), (lambda sp: tuple(sorted((inv[k], v) for k, v in sp.items())))
 
+def t_rename_prefix(rng, rules):
+    """renaming in which every name is a prefix (up to an underscore) of others: v, v_k, v_k_k, ... in a random assignment -- code that
+    recognises a variable's places / transitions by a name PREFIX instead of the exact name confuses them (seeded change w11_C17)"""
+    rs = parse_rules(rules)
+    names = [v for v, _ in rs]
+    new = ["v" + "_k" * i for i in range(len(names))]
+    rng.shuffle(new)
+    mp = dict(zip(names, new))
+    lines = [f"{mp[v]}, {subst_vars(e, mp)}" for v, e in rs]
+    inv = {b: a for a, b in mp.items()}
+    return "\n".join(lines), (lambda sp: tuple(sorted((inv[k], v) for k, v in sp.items())))
+
 def t_flip(rng, rules):
     rs = parse_rules(rules)
     names = [v for v, _ in rs]
@@ -119,9 +131,11 @@ def _c17_worker(case):
             return ["".join(str(dict(s)[v]) for v in nm0) for s in view["seeds"]]
         base_ids = attractor_ids(seed_states(base), attrs)
         msgs = []
-        kinds = case["transforms"]
+        kinds = list(case["transforms"]) + (["prefix"] if case["seed"] % 2 == 0 or case.get("prefix") else [])      # additive, own random stream
         for kind in kinds:
-            if kind == "rename":
+            if kind == "prefix":
+                r2, back = t_rename_prefix(random.Random(case["seed"] ^ 0x17), rules); sd = make_sd(r2)
+            elif kind == "rename":
                 r2, back = t_rename(rng, rules); sd = make_sd(r2)
             elif kind == "flip":
                 r2, back = t_flip(rng, rules); sd = make_sd(r2)
@@ -133,7 +147,7 @@ def _c17_worker(case):
                 sd = SuccessionDiagram.from_rules(text, format=kind); back = None; r2 = text
             run(sd)
             v = result_view(sd, var_names(sd), back)
-            if kind == "flip" or kind == "rename" or strat != "bfs":
+            if kind == "flip" or kind == "rename" or kind == "prefix" or strat != "bfs":
                 # node ids / exact structure may legitimately differ in order; compare id-free
                 pass
             if set(v["nodes"]) != set(base["nodes"]) or v["edges"] != base["edges"]:
@@ -254,7 +268,7 @@ def run_C17(tier, seed):
             viol.append({"property": "C17", "signature": "C17:" + sig, "what": msg, "case": w["case"], "failing_input": sig != "sanitize-model"})
     good = [w for w in ws if not w.get("error") and not w.get("timeout")]
     return {"evaluations": len(cases) * 3 + len(scases), "distinct_nontrivial": len({case_hash(w["case"]) for w in good if w["nodes"] > 2}),
-            "rule": "metamorphic pairs on the real code: random renaming + reordering of declarations, polarity flip of a random subset of variables (x := !n_x everywhere), replacement of every update function by an equivalent formula (full DNF or double negation), round trips through aeon and sbml text; the full BFS diagram (node spaces, edges, motif lists), minimal trap spaces and the set of attractors identified by the seeds (mapped to brute-force attractors of the original) must coincide through the transformation; plus sanitize_network_names on networks renamed with brackets/braces/underscores incl. names colliding after sanitising (distinct, solver-safe, same truth tables); non-trivial = more than 2 nodes",
+            "rule": "metamorphic pairs on the real code: random renaming + reordering of declarations, renaming to names that are prefixes of one another (v, v_k, v_k_k, ...; every second case), polarity flip of a random subset of variables (x := !n_x everywhere), replacement of every update function by an equivalent formula (full DNF or double negation), round trips through aeon and sbml text; the full BFS diagram (node spaces, edges, motif lists), minimal trap spaces and the set of attractors identified by the seeds (mapped to brute-force attractors of the original) must coincide through the transformation; plus sanitize_network_names on networks renamed with brackets/braces/underscores incl. names colliding after sanitising (distinct, solver-safe, same truth tables); non-trivial = more than 2 nodes",
             "samples": [w["case"] for w in good[:3]], "violations": viol, "extra": {"sanitize_cases": len(scases), "sanitize_raised": sum(1 for w in ss if w.get("raised")),
                       "sanitize_names_renamed": sum(w.get("renamed", 0) for w in ss), "sanitize_names_with_clash_prefix": sum(w.get("clash", 0) for w in ss)}}
 
